@@ -734,7 +734,7 @@ func dnsJobs(tier string) []Job {
 	c := Config{MaxLoop: 300, MaxWall: 900}
 	r := []string{"decoded"}
 	var jobs []Job
-	for sc := int64(0); sc < 8; sc++ {
+	for sc := int64(0); sc < 9; sc++ {
 		jobs = append(jobs, Job{Pkg: "root", Func: "VerifC17Records", Args: []int64{sc}, Cfg: c, Reach: r})
 	}
 	for k := int64(0); k < 9; k++ {
@@ -753,6 +753,9 @@ func dnsJobs(tier string) []Job {
 	p := []string{"processed"}
 	for sc := int64(0); sc < 2; sc++ {
 		jobs = append(jobs, Job{Pkg: "handlers/dns_naming", Func: "VerifC17ProcessDNS", Args: []int64{sc}, Cfg: c, Reach: p})
+	}
+	for k := int64(0); k < 3; k++ {
+		jobs = append(jobs, Job{Pkg: "handlers/dns_naming", Func: "VerifC17ProcessDNSSingle", Args: []int64{k}, Cfg: c, Reach: p})
 	}
 	for k := int64(0); k < 3; k++ {
 		jobs = append(jobs, Job{Pkg: "handlers/dns_naming", Func: "VerifC17ProcessDNSMalformed", Args: []int64{k}, Cfg: c, Reach: p})
@@ -785,9 +788,9 @@ func init() {
 		Filter:    prefixFilter("C17:", true),
 		Bounds: func(tier string) map[string]string {
 			return map[string]string{
-				"decode layer":   "8 message shapes: names of 2-3 labels, the longest legal name (63.63.63.61), 127 one-byte labels, owner names longer than the 64-byte scratch buffer; compression by pointer to the question, label+pointer to a suffix, pointer chains of depth 3, pointer into CNAME rdata; A, AAAA, CNAME, PTR, ignored TXT; all label bytes, addresses, TTLs and the id symbolic",
+				"decode layer":   "9 message shapes (incl. an AAAA-only answer): names of 2-3 labels, the longest legal name (63.63.63.61), 127 one-byte labels, owner names longer than the 64-byte scratch buffer; compression by pointer to the question, label+pointer to a suffix, pointer chains of depth 3, pointer into CNAME rdata; A, AAAA, CNAME, PTR, ignored TXT; all label bytes, addresses, TTLs and the id symbolic",
 				"malformed":      "9 classes: self pointer, label+back pointer, two-pointer cycle, length octet 64..191 (symbolic), pointer at/past the end (symbolic target), label past the end, RDLENGTH too large (symbolic), A with RDLENGTH != 4, owner pointer loop; truncation of a 2-record message at every offset",
-				"naming handler": "ProcessDNS on frames through the real Parse (CNAME+A+AAAA response, second response for the same name, malformed / truncated responses); ProcessMDNS with A and AAAA records in each section, with and without a preceding unknown-type / NSEC record; ProcessNBNS node status responses with 0..2 (thorough 3) names of 1..3 characters, each unique or group, name arrays cut short by 1, 2, 3, 17, 18 bytes, and non-status answer types",
+				"naming handler": "ProcessDNS on frames through the real Parse (CNAME+A+AAAA response, second response for the same name, single-record responses of each kind A / AAAA / CNAME followed by a second different record, malformed / truncated responses); ProcessMDNS with A and AAAA records in each section, with and without a preceding unknown-type / NSEC record; ProcessNBNS node status responses with 0..2 (thorough 3) names of 1..3 characters, each unique or group, name arrays cut short by 1, 2, 3, 17, 18 bytes, and non-status answer types",
 				"merge":          "NameEntry.Merge and the five Host.Update*Name functions over entries whose name/model are arbitrary strings of 0..2 bytes and OS/manufacturer 0..1 bytes, with and without expiry",
 			}
 		},
